@@ -7,6 +7,7 @@ import (
 	"fmt"
 	"io"
 	"log"
+	"os"
 	"sort"
 	"time"
 
@@ -219,6 +220,10 @@ func runOne(r *hxlib.Run, s sc, mutants bool) {
 }
 
 func main() {
+	if hxconn.IsChild() {
+		hxconn.ChildMain()
+		return
+	}
 	r := hxlib.Start("C03", "one run of a real TcpConn over loopback TCP (scenario: codec, cipher, queue capacity, packets, peer policy, who closes when); non-trivial when a backlog of >= 2 packets sat in the outbound queue when a close began; distinct by scenario shape and backlog")
 	defer r.Finish()
 	log.SetOutput(io.Discard)
@@ -234,7 +239,14 @@ func main() {
 			qnet.TConnReadTimeout = 1 // the peer stalls 1.4 s in the middle of a frame
 			reps = 3                  // (real time decides where the read deadline falls: look again before giving up)
 		}
+		if s.Peer.Hold >= 5000 {
+			reps = 1 // (a stall of many seconds decides by wall-clock time, not by the schedule)
+		}
 		for k := 0; k < reps && !r.Failed(); k++ {
+			if s.Iso {
+				record(r, hxconn.RunIsolatedBelievably(s, check03), false)
+				continue
+			}
 			runOne(r, s, false)
 		}
 		return
@@ -255,8 +267,14 @@ func main() {
 			Senders: []hxconn.Sender{{Sizes: sizes(hxlib.NewRand(7), 40, 0, 64), When: "start", Burst: true}}, Closers: []hxconn.Closer{{Graceful: true, When: "senders"}},
 			Peer: hxconn.Peer{Read: "ccall"}},
 	}
+	collectStalls := startStalls(r) // (children that wait in the background; judged at the very end)
+	defer collectStalls()
 	for _, s := range fixed {
 		runOne(r, s, true)
+	}
+	diversityLegs(r)
+	if os.Getenv("HX_ONLY") == "diversity" { // (development aid: only the third-wave legs)
+		return
 	}
 	n := r.Scale(150, 1500)
 	for k := 0; k < n; k++ {
